@@ -106,6 +106,12 @@ ExpectWith(e, a) ==
       [] e.op = "max_pool2d" -> Pool2d("max", a, e.args.kernel, e.args.stride, e.args.ceil)
       [] e.op = "avg_pool2d" -> Pool2d("avg", a, e.args.kernel, e.args.stride, e.args.ceil)
       [] e.op = "linear" -> Linear(a, Operand(e, 2), IF e.args.bias THEN <<Operand(e, 3)>> ELSE <<>>)
+      \* C09 / C01: index functions (results are shape-like: carried in the shape field)
+      [] e.op = "compute_strides" -> [ok |-> TRUE, shape |-> Strides(e.shapes[1]), elems |-> <<>>]
+      [] e.op = "product" -> [ok |-> TRUE, shape |-> <<Prod(e.shapes[1])>>, elems |-> <<>>]
+      [] e.op = "reverse" -> [ok |-> TRUE, shape |-> Reverse(e.shapes[1]), elems |-> <<>>]
+      [] e.op = "compute_indices" -> [ok |-> TRUE, shape |-> Unravel(e.args.k, e.shapes[1]), elems |-> <<>>]
+      [] e.op = "shape_reshape" -> LET r == ReshapeShape(Prod(e.shapes[1]), e.args.dst) IN IF r[1] THEN [ok |-> TRUE, shape |-> r[2], elems |-> <<>>] ELSE Nothing
       \* C05
       [] e.op = "slice" -> SliceView(a, e.args.parts)
       \* C06
